@@ -360,7 +360,7 @@ func (c *VCtx) execInstr(fr *Frame, st *State, in ssa.Instruction, incoming map[
 	case *ssa.MakeChan:
 		r := c.freshRef(st, "chan")
 		r.GT = x.Type()
-		c.fact(Gt(c.closedAt(r), c.now(st)))
+		c.fact(Not(c.isClosed(st, r)))
 		fr.env[x] = r
 	case *ssa.MakeClosure:
 		fv := &FnVal{Fn: x.Fn.(*ssa.Function)}
@@ -515,6 +515,10 @@ func (c *VCtx) loopInvariants(fr *Frame, li *loopInfo) []*Clause {
 }
 
 func (c *VCtx) loopHead(fr *Frame, li *loopInfo, st *State, phis []*ssa.Phi) {
+	if c.pointsHit == nil {
+		c.pointsHit = map[string]bool{}
+	}
+	c.pointsHit[fmt.Sprintf("%s|loop %d", FuncKey(fr.fn), li.ordinal)] = true
 	invs := c.loopInvariants(fr, li)
 	// 1. invariant holds on entry
 	for i, inv := range invs {
@@ -528,7 +532,32 @@ func (c *VCtx) loopHead(fr *Frame, li *loopInfo, st *State, phis []*ssa.Phi) {
 		c.havocAll(st)
 	} else {
 		bases := c.fieldStoreBases(fr, li)
+		cellTargets, cellsOK := c.loopCellTargets(fr, li)
 		for h := range mods {
+			if h == "G:alloc" {
+				// allocation only grows
+				old := c.allocHeap(st)
+				nw := c.fresh("H!G:alloc", old.Sort)
+				c.defFact(nw, T(SBool, fmt.Sprintf("(forall ((r Ref)) (! (=> (select %s r) (select %s r)) :pattern ((select %s r))))", old.S, nw.S, nw.S)))
+				st.heaps[h] = nw
+				continue
+			}
+			if h == "G:now" {
+				c.observe(st)
+				continue
+			}
+			if strings.HasPrefix(h, "C:") && !strings.HasPrefix(h, "C:glob") && cellsOK {
+				// thread-local cells: only those written in the loop (directly or by a closure) change
+				cur := c.heap(st, h, mods[h])
+				_, vs := arrParts(mods[h])
+				for _, l := range cellTargets {
+					if l.Heap == h {
+						cur = Store(cur, l.Base, c.fresh("cv", vs))
+					}
+				}
+				st.heaps[h] = c.name("h", cur)
+				continue
+			}
 			if _, known := c.heapSorts[h]; !known {
 				c.heapSorts[h] = mods[h]
 			}
@@ -640,6 +669,121 @@ func (c *VCtx) fieldStoreBases(fr *Frame, li *loopInfo) map[string][]*Term {
 	return out
 }
 
+// loopCellTargets lists the pre-existing local cells (captured variables, locals whose address is taken)
+// that the loop may write: by a store in the loop body or by any closure that writes its captured copy.
+// ok=false: some store goes through a pointer the analysis cannot name.
+func (c *VCtx) loopCellTargets(fr *Frame, li *loopInfo) ([]*Loc, bool) {
+	var out []*Loc
+	ok := true
+	var fvWritten func(fn *ssa.Function, idx int, depth int) bool
+	fvWritten = func(fn *ssa.Function, idx int, depth int) bool {
+		if depth > 5 || idx >= len(fn.FreeVars) {
+			return true
+		}
+		fv := fn.FreeVars[idx]
+		for _, r := range *fv.Referrers() {
+			switch x := r.(type) {
+			case *ssa.Store:
+				if x.Addr == fv {
+					return true
+				}
+				if x.Val == fv {
+					return true
+				}
+			case *ssa.MakeClosure:
+				for j, b := range x.Bindings {
+					if b == fv && fvWritten(x.Fn.(*ssa.Function), j, depth+1) {
+						return true
+					}
+				}
+			case *ssa.UnOp, *ssa.DebugRef:
+			case ssa.CallInstruction:
+				for _, a := range x.Common().Args {
+					if a == fv {
+						return true
+					}
+				}
+			default:
+				return true
+			}
+		}
+		return false
+	}
+	written := func(v ssa.Value) bool {
+		refs := v.Referrers()
+		if refs == nil {
+			return true
+		}
+		for _, r := range *refs {
+			switch x := r.(type) {
+			case *ssa.Store:
+				if x.Addr == v && li.body[x.Block()] {
+					return true
+				}
+				if x.Val == v {
+					return true
+				}
+			case *ssa.MakeClosure:
+				for j, b := range x.Bindings {
+					if b == v && fvWritten(x.Fn.(*ssa.Function), j, 0) {
+						return true
+					}
+				}
+			case *ssa.UnOp, *ssa.DebugRef:
+			case ssa.CallInstruction:
+				for _, a := range x.Common().Args {
+					if a == v && li.body[x.Block()] {
+						return true
+					}
+				}
+			case *ssa.IndexAddr, *ssa.FieldAddr, *ssa.Slice:
+				// element / field writes are tracked in their own heaps
+			default:
+				return true
+			}
+		}
+		return false
+	}
+	consider := func(v ssa.Value) {
+		l, isLoc := fr.env[v].(*Loc)
+		if !isLoc || l.Kind != "cell" {
+			return
+		}
+		if written(v) {
+			out = append(out, l)
+		}
+	}
+	for _, b := range fr.fn.Blocks {
+		if li.body[b] {
+			continue
+		}
+		for _, in := range b.Instrs {
+			if a, isA := in.(*ssa.Alloc); isA {
+				consider(a)
+			}
+		}
+	}
+	for _, fv := range fr.fn.FreeVars {
+		consider(fv)
+	}
+	for _, p := range fr.fn.Params {
+		consider(p)
+	}
+	// stores in the loop body through anything else than a named cell / field / element are not analysable
+	for b := range li.body {
+		for _, in := range b.Instrs {
+			if s, isS := in.(*ssa.Store); isS {
+				switch s.Addr.(type) {
+				case *ssa.Alloc, *ssa.FreeVar, *ssa.Parameter, *ssa.FieldAddr, *ssa.IndexAddr:
+				default:
+					ok = false
+				}
+			}
+		}
+	}
+	return out, ok
+}
+
 func blockOf(v ssa.Value) *ssa.BasicBlock {
 	if in, ok := v.(ssa.Instruction); ok {
 		return in.Block()
@@ -727,10 +871,11 @@ func (c *VCtx) modSet(fn *ssa.Function, blocks map[*ssa.BasicBlock]bool, depth i
 					mods[k] = v
 				}
 			case *ssa.Select, *ssa.Send:
-				all = true
+				// time passes; shared state is re-read only under locks (lock discipline), where it is havocked anyway
+				mods["G:now"] = SInt
 			case *ssa.UnOp:
 				if x.Op == token.ARROW {
-					all = true
+					mods["G:now"] = SInt
 				}
 			}
 		}
@@ -786,7 +931,15 @@ func (c *VCtx) callModSet(fn *ssa.Function, cc *ssa.CallCommon, depth int) (map[
 		if mc, ok := cc.Value.(*ssa.MakeClosure); ok {
 			callee = mc.Fn.(*ssa.Function)
 		} else {
-			return c.externalMods(cc), false
+			m := c.externalMods(cc)
+			c.callbackMods(m, cc)
+			// the value may be a closure of this function or a bound method handed in by the caller: if it is a
+			// parameter of function type whose actual is known only at run time, the ghost effects above are all
+			if p, ok := cc.Value.(*ssa.Parameter); ok {
+				_ = p
+				return m, c.paramFnMayBeLibrary(fn, p)
+			}
+			return m, false
 		}
 	}
 	if m := c.staticModel(callee); m != nil {
@@ -800,9 +953,42 @@ func (c *VCtx) callModSet(fn *ssa.Function, cc *ssa.CallCommon, depth int) (map[
 		for _, b := range callee.Blocks {
 			all[b] = true
 		}
-		return c.modSet(callee, all, depth+1)
+		m, a := c.modSet(callee, all, depth+1)
+		if ct := c.eng.ContractOf(callee); ct != nil {
+			for _, g := range ct.Ghost {
+				lhs, _, _ := strings.Cut(g.Src, ":=")
+				lhs = strings.TrimSpace(lhs)
+				if i := strings.Index(lhs, "("); i > 0 {
+					name, sort := c.ghostHeap(fnPkgPath(callee), lhs[:i])
+					m[name] = sort
+				} else {
+					a = true
+				}
+			}
+		}
+		return m, a
 	}
 	return c.externalMods(cc), false
+}
+
+// callbackMods: ghost bookkeeping touched by a call of an opaque function value.
+func (c *VCtx) callbackMods(m map[string]Sort, cc *ssa.CallCommon) {
+	m["G:calls"] = ArrSort(SRef, SInt)
+	m["G:calltime"] = ArrSort(SRef, SInt)
+	m["G:now"] = SInt
+	res := cc.Signature().Results()
+	for i := 0; i < res.Len(); i++ {
+		s := sortOf2(res.At(i).Type())
+		if s != "" {
+			m[fmt.Sprintf("G:lastret:%d:%s", i, s)] = ArrSort(SRef, s)
+		}
+	}
+}
+
+// paramFnMayBeLibrary: a function-typed parameter of an inlined library function (e.g. the broadcast /
+// getWaitCh arguments of a HoldLock callback) may be bound to library code with arbitrary effects.
+func (c *VCtx) paramFnMayBeLibrary(fn *ssa.Function, p *ssa.Parameter) bool {
+	return fn.Parent() != nil
 }
 
 // externalMods: an unknown callee may modify the contents of slices passed to it and cells passed by pointer.
